@@ -238,7 +238,11 @@ def parse_raw_http(data: bytes) -> Union[HttpRequest, HttpResponse]:
     uri = uri.decode("ascii", errors="ignore").encode()
     result = urlparse(uri)
     uri = result.path
-    params = dict(parse_qsl(result.query))
+    # percent-decode the query byte-for-byte (parse_qsl on bytes cannot return non-ASCII values)
+    params = {
+        key.encode("latin-1"): value.encode("latin-1")
+        for key, value in parse_qsl(result.query.decode("latin-1"), encoding="latin-1")
+    }
     return HttpRequest(method=method, body=body, headers=headers, uri=uri, params=params)
 
 
